@@ -1,0 +1,48 @@
+//go:build verif
+
+package lastgersync
+
+import (
+	"context"
+	"math/big"
+	"time"
+
+	"github.com/agglayer/aggkit/sync"
+	aggkittypes "github.com/agglayer/aggkit/types"
+	"github.com/ethereum/go-ethereum/common"
+)
+
+// Hooks for the verification harness (build tag verif): thin wrappers, no logic of their own.
+
+// VerifProcessor gives the harness access to the unexported processor.
+type VerifProcessor struct{ P *processor }
+
+func VerifNewProcessor(dbPath string) (*VerifProcessor, error) {
+	p, err := newProcessor(dbPath)
+	if err != nil {
+		return nil, err
+	}
+	return &VerifProcessor{P: p}, nil
+}
+
+func (v *VerifProcessor) ProcessBlock(ctx context.Context, b sync.Block) error {
+	return v.P.ProcessBlock(ctx, b)
+}
+func (v *VerifProcessor) Reorg(ctx context.Context, first uint64) error { return v.P.Reorg(ctx, first) }
+func (v *VerifProcessor) GetLastProcessedBlock(ctx context.Context) (uint64, error) {
+	return v.P.GetLastProcessedBlock(ctx)
+}
+func (v *VerifProcessor) GetFirstGERAfterL1InfoTreeIndex(ctx context.Context, idx uint32) (GlobalExitRootInfo, error) {
+	return v.P.GetFirstGERAfterL1InfoTreeIndex(ctx, idx)
+}
+func (v *VerifProcessor) Close() error { return v.P.database.Close() }
+
+// VerifNewDownloader builds the PP or FEP downloader exactly as New does.
+func VerifNewDownloader(mode SyncMode, l2Client aggkittypes.BaseEthereumClienter, l2GERAddr common.Address,
+	l1InfoTreeSync L1InfoTreeQuerier, p *VerifProcessor, rh *sync.RetryHandler, blockFinality *big.Int,
+	waitForNewBlocksPeriod time.Duration) (sync.Downloader, error) {
+	if mode == FEP {
+		return newDownloaderFEP(l2Client, l2GERAddr, l1InfoTreeSync, p.P, rh, blockFinality, waitForNewBlocksPeriod)
+	}
+	return newDownloaderPP(l2Client, l2GERAddr, l1InfoTreeSync, p.P, rh, blockFinality, waitForNewBlocksPeriod)
+}
